@@ -209,7 +209,13 @@ def main():
         log = d["log"]
         m = re.search(r"^(panic: .*|fatal error: .*)$", log, re.M)
         what = m.group(1) if m else d["status"]
-        in_lib = "github.com/jhump/grpctunnel" in log
+        # the panicking goroutine is the first stack after the panic line
+        in_lib = False
+        if m:
+            rest = log[m.end():]
+            blocks = [b for b in rest.split("\n\n") if b.strip().startswith("goroutine ")]
+            if blocks:
+                in_lib = "github.com/jhump/grpctunnel." in blocks[0] or "github.com/jhump/grpctunnel/" in blocks[0]
         if d["status"] == "died" and m and in_lib and "synctest" not in what and d["case"] is not None:
             key = "panic:" + re.sub(r"0x[0-9a-f]+|\d+", "N", what)[:80]
             prop = spec.get("panic_prop", cid)
